@@ -326,6 +326,23 @@ def check(run):
         run.check(okc, 'R5', 'synack-for-this-connect', T + '::incoming_packet:syn_ack', ipk.loc(f_.site),
                   'the connect is completed by ANY SYN-ACK that reaches the socket (no dominating p.channel == m_channel test): the SYN-ACK of an earlier, cancelled connect completes a later connect to a different acceptor with success - a connect succeeds with no accept on the acceptor it dialled, and the two connections are crossed',
                   'completed only when p.channel == m_channel')
+    run.clause('a connect that was queued at an acceptor completes when the acceptor goes away: the reset carries the channel, and an error packet for the pending connect\'s channel completes m_connect_handler with the packet\'s error')
+    okr = False
+    for f_ in comp:
+        g_ = q.guards_at(ipk, f_.site)
+        is_err = any('type_t::error' in q.render(ipk, a_) and p_ for a_, p_ in g_)
+        if is_err:
+            txt_ = p04.closure_text(fx, ipk, f_)
+            okr = okr or 'p.ec' in txt_
+    run.check(okr, 'R4', 'reset-completes-pending-connect', T + '::incoming_packet:error', ipk.loc(),
+              'no completion of m_connect_handler is reachable for an error packet: when the acceptor is closed while the connect waits in its queue (or cannot attach the connection), the reset it sends is queued as unreadable stream data and the connect never completes - neither matched nor refused',
+              'an error packet for the pending connect completes it with p.ec')
+    caq_ = fx.fn1(A + '::check_accept_queue')
+    errp = [a_ for a_ in q.field_accesses(caq_, {'sim::aux::packet::type'}) if a_.kind == 'assign' and 'error' in q.render(caq_, a_.site)]
+    chans = [a_.site for a_ in q.field_accesses(caq_, {'sim::aux::packet::channel'}) if a_.kind == 'assign']
+    fwds = [c for c in caq_.calls() if q.callee_name(c) == 'sim::forward_packet']
+    run.check(bool(errp) and all(any(q.precedes(caq_, ch_, fw_) and q.paired(caq_, ch_, fw_) for ch_ in chans) for fw_ in fwds), 'R4', 'reset-carries-channel', A + '::check_accept_queue', caq_.loc(),
+              'a packet check_accept_queue() sends to a connector does not carry its channel: the connector cannot tell which connect it answers and ignores it', 'every packet sent to a connector has p.channel set')
     run.clause('close(ec) ends listening: the listen limit has a closed writer set and is reset on every path of acceptor::close(ec)')
     engines.r2_writer_table(run, A + '::m_queue_size_limit', {A + '::acceptor': 'constructed not listening', A + '::listen': 'starts listening', A + '::close': 'stops listening'},
                             required=[A + '::listen', A + '::close'])
